@@ -81,6 +81,33 @@ def msn(s: str) -> str:
     return "'" + ''.join(out) + "'"
 
 
+def env_ops(entries) -> T.List[T.Tuple[str, str, str, str]]:
+    """site env entries: (name, value) = set; (name, value, op, separator) with op in set/append/prepend"""
+    out = []
+    for e in entries:
+        e = tuple(e)
+        out.append((e[0], e[1], 'set', ':') if len(e) == 2 else (e[0], e[1], e[2], e[3]))
+    return out
+
+
+def env_base(entries) -> T.Dict[str, str]:
+    """values present in the environment of the process that executes the command (so that append/prepend differ)"""
+    return {k: 'base' for k, _v, op, _s in env_ops(entries) if op != 'set'}
+
+
+def expected_env(entries, base: T.Dict[str, str]) -> T.Dict[str, str]:
+    """documented semantics of environment(): set replaces, append/prepend join with the separator"""
+    cur = dict(base)
+    for k, v, op, sep in env_ops(entries):
+        if op == 'set' or k not in cur:
+            cur[k] = v
+        elif op == 'append':
+            cur[k] = cur[k] + sep + v
+        else:
+            cur[k] = v + sep + cur[k]
+    return cur
+
+
 def msl(l: T.Iterable[str]) -> str:
     return '[' + ', '.join(msn(x) for x in l) + ']'
 
@@ -137,10 +164,11 @@ def gen_project(rng, idx: int, kind: str, extra: T.List[str], nsites: int) -> T.
     sites: T.List[Site] = []
     L = ["project('p%d', 'c')" % idx, "py = find_program(%s)" % msn(sys.executable), "dump = files('dump.py')"]
 
-    def envdef(name: str, env: T.List[T.Tuple[str, str]]) -> None:
+    def envdef(name: str, env) -> None:
         L.append(f'{name} = environment()')
-        for k, v in env:
-            L.append(f'{name}.set({msn(k)}, {msn(v)})')
+        for k, v, op, sep in env_ops(env):
+            sepkw = '' if sep == ':' else f', separator: {msn(sep)}'
+            L.append(f'{name}.{op}({msn(k)}, {msn(v)}{sepkw})')
 
     def mkenv(sid: str, allow_nl: bool) -> T.List[T.Tuple[str, str]]:
         return [(f'MV_E{j}', hostile(rng, extra, allow_nl)) for j in range(rng.randint(1, 2))]
@@ -155,6 +183,60 @@ def gen_project(rng, idx: int, kind: str, extra: T.List[str], nsites: int) -> T.
         args = ['-DV0=a\nb']
         L.append(f"executable('e0', 'main.c', c_args: {msl(args)})")
         sites.append(Site('e0', 'c_args', 'plain', args, []))
+        return sites, '\n'.join(L) + '\n'
+    if kind == 'crosstalk':
+        # families of commands that agree in every field that names the pickled wrapper file except one
+        from .c03 import ALPHABET
+        NL = 'n\nl'
+        w = ''.join(rng.choice([c for c in ALPHABET if c not in '\n\\@']) for _ in range(rng.randint(3, 4)))
+        i1, i2 = 1, len(w) - 1
+        splits = [[w[:i1], w[i1:]], [w[:i2], w[i2:]], [w], [w, ''], ['', w], [w[:i1], w[i1:i2], w[i2:]]]
+        n = 0
+
+        def rt(args, env, prog='py'):
+            nonlocal n
+            sid = f'rt{n}'
+            n += 1
+            kw = ''
+            if env:
+                envdef(f'env_{sid}', env)
+                kw = f', env: env_{sid}'
+            L.append(f"run_target('{sid}', command: [{prog}, dump{''.join(', ' + msn(a) for a in args)}]{kw})")
+            sites.append(Site(sid, 'run_target', 'crosstalk', list(args), list(env)))
+
+        def ct(args, env, extra_kw, mode):
+            nonlocal n
+            sid = f'ct{n}'
+            n += 1
+            kw = [f"output: '{sid}.out'"] + extra_kw
+            if env:
+                envdef(f'env_{sid}', env)
+                kw.append(f'env: env_{sid}')
+            L.append(f"custom_target('{sid}', {', '.join(kw)}, command: [py, dump{''.join(', ' + msn(a) for a in args)}])")
+            sites.append(Site(sid, 'custom_target', mode, list(args), list(env)))
+        # F1 argument boundaries, pickled because of the newline word (run_target) / the prepend (custom_target)
+        for sp in splits:
+            rt([NL] + sp, [])
+        for sp in splits[:4]:
+            ct(sp, [('MV_EP', 'p', 'prepend', ':')], [], 'crosstalk')
+        # F2 one env value / operation kind / separator
+        v = hostile(rng, extra, False).replace(';', '_').replace(',', '_') or 'v'
+        for env in ([('MV_EA', v + ';MV_EB,y')], [('MV_EA', v), ('MV_EB', 'y')],
+                    [('MV_EC', v, 'append', ':')], [('MV_EC', v, 'prepend', ':')], [('MV_EC', v)],
+                    [('MV_EC', v, 'append', ';')], [('MV_EC', v + 'x', 'append', ':')]):
+            rt([NL, 'q'], env)
+        # F3 capture target, F4 feed source (both pickled through the append)
+        for _ in range(2):
+            ct(['c', w], [('MV_EQ', 'q', 'append', ':')], ['capture: true'], 'crosstalk-capture')
+        ct(['f', w], [('MV_EQ', 'q', 'append', ':')], ["input: 'feed.txt'", 'feed: true'], 'crosstalk-feed')
+        ct(['f', w], [('MV_EQ', 'q', 'append', ':')], ["input: 'feed2.txt'", 'feed: true'], 'crosstalk-feed')
+        # F5 the program given as a found program or as a string
+        rt([NL, 'p', w], [])
+        rt([NL, 'p', w], [], prog=msn(sys.executable))
+        # F6 the same boundary shifts through `--internal exe` (capture) and directly
+        for sp in splits[:3]:
+            ct(sp, [], ['capture: true'], 'crosstalk-capture')
+            ct(sp, [], [], 'crosstalk')
         return sites, '\n'.join(L) + '\n'
     if kind == 'tests':
         # the `meson test` leg: several tests with distinct hostile arguments, two test setups
@@ -332,6 +414,8 @@ def write_project(root: str, text: str, sites: T.List[Site]) -> T.Tuple[str, str
         f.write('int main(void) { return 0; }\n')
     with open(os.path.join(src, 'feed.txt'), 'w') as f:
         f.write('feed\n')
+    with open(os.path.join(src, 'feed2.txt'), 'w') as f:
+        f.write('feed2\n')
     for s in sites:
         if s.position == 'generator':
             with open(os.path.join(src, s.sid + '.in'), 'w') as f:
@@ -540,6 +624,8 @@ def _evaluate_project(ctx: Ctx, root: str, b: str, dumpdir: str, kind: str, site
             continue
         jobs.append((s, st))
 
+    check_pickles(ctx, b, kind, jobs)
+
     # command strings through the model's Ninja evaluation
     reqs: T.List[str] = []
     for s, st in jobs:
@@ -581,6 +667,7 @@ def _evaluate_project(ctx: Ctx, root: str, b: str, dumpdir: str, kind: str, site
                 f.write(content)
         mvid = f'{s.position}-{s.sid}'
         env = dict(os.environ, MV_DUMP=dumpdir, MV_ID=mvid, PYTHONPATH=common.REPO, LC_ALL='C.UTF-8')
+        env.update(env_base(s.env))
         p = subprocess.run(['/bin/sh', '-c', command], cwd=b, env=env, stdin=subprocess.DEVNULL,
                            stdout=subprocess.PIPE, stderr=subprocess.STDOUT, timeout=120)
         return s, st, p.returncode, p.stdout.decode('utf-8', 'replace')[-300:], content
@@ -624,11 +711,12 @@ def _evaluate_project(ctx: Ctx, root: str, b: str, dumpdir: str, kind: str, site
                 ctx.violation(key_of(s), f'argv differs: expected {want!r}, executed {got!r} (wrapping: {wrap})',
                               case_of(kind, s, {'expected': want, 'got': got, 'raw_COMMAND': cmdvar}))
                 continue
-            if s.env:
-                for k, v in s.env:
-                    if recs[0]['env'].get(k) != v:
-                        ctx.violation(key_of(s), f'env {k}: expected {v!r}, process saw {recs[0]["env"].get(k)!r}',
-                                      case_of(kind, s, {'raw_COMMAND': cmdvar}))
+            # the MV_E* part of the process environment must be exactly what the definition's env says
+            want_env = expected_env(s.env, env_base(s.env))
+            if recs[0]['env'] != want_env:
+                ctx.violation(key_of(s), f'env differs: expected {want_env!r}, process saw {recs[0]["env"]!r} (wrapping: {wrap})',
+                              case_of(kind, s, {'expected_env': want_env, 'got_env': recs[0]['env'], 'raw_COMMAND': cmdvar}))
+                continue
             ctx.seen_nontrivial(('e2e', key_of(s)))
         else:
             argv = recs[0]['argv']
@@ -838,6 +926,58 @@ def mtest_inprocess(ctx: Ctx, b: str, kind: str, tsites: T.List[Site], variants:
                 ctx.disagreement({'kind': 'mtest-cmd', 'input': info, 'impl': full, 'model': a})
 
 
+def check_pickles(ctx: Ctx, b: str, kind: str, jobs) -> None:
+    """oracle on the generated artefacts: every `--unpickle FILE` names a file that unpickles to exactly the command
+    that references it, and commands that differ do not share a file"""
+    import pickle
+    by_path: T.Dict[str, T.List[Site]] = {}
+    for s, st in jobs:
+        if s.position not in ('custom_target', 'run_target', 'generator'):
+            continue
+        cmdvar = dict(st['vars']).get('COMMAND', '')
+        toks = cmdvar.split(' ')
+        if '--unpickle' not in toks:
+            continue
+        i = toks.index('--unpickle')
+        # the wrapper's own option, not a word of a wrapped command: directly after `--internal exe`, no `--` before it
+        if i + 1 >= len(toks) or toks[max(0, i - 2):i] != ['--internal', 'exe'] or '--' in toks[:i]:
+            continue
+        path = toks[i + 1]
+        ctx.count()
+        ctx.tag('e2e:pickle-checked')
+        by_path.setdefault(path, []).append(s)
+        try:
+            with open(path if os.path.isabs(path) else os.path.join(b, path), 'rb') as f:
+                es = pickle.load(f)
+            got_args = list(es.cmd_args)
+            base = env_base(s.env)
+            got_env = {k: v for k, v in (es.env.get_env(dict(base)) if es.env else dict(base)).items() if k.startswith('MV_E')}
+        except Exception as e:      # noqa: BLE001
+            ctx.violation(key_of(s), f'the wrapper file {path} cannot be read back: {type(e).__name__}: {e}', case_of(kind, s, {}))
+            continue
+        subst = {'@SOURCE_ROOT@': '../src', '@BUILD_ROOT@': '.', '@OUTPUT@': s.sid + '.out', '@OUTPUT0@': s.sid + '.out',
+                 '@OUTDIR@': '.', '@INPUT@': '../src/feed.txt', '@INPUT0@': '../src/feed.txt',
+                 '@PLAINNAME@': 'feed.txt', '@BASENAME@': 'feed'}
+        want = expect_custom(s.args, subst)
+        if len(want) != 1:
+            continue
+        tail = got_args[2:-2] if s.position == 'generator' else got_args[2:]
+        want_env = expected_env(s.env, base)
+        if tail != want[0] or got_env != want_env:
+            ctx.violation(key_of(s), f'the wrapper file named by this command holds another command: arguments {tail!r} '
+                          f'env {got_env!r}; the definition says {want[0]!r} {want_env!r}',
+                          case_of(kind, s, {'dat': os.path.basename(path), 'file_args': tail, 'file_env': got_env}))
+    for path, ss in by_path.items():
+        distinct = {(tuple(x.args), tuple(map(tuple, x.env)), x.mode.split('-')[-1] if 'capture' in x.mode or 'feed' in x.mode
+                     else '', x.sid if ('capture' in x.mode or 'feed' in x.mode) else '') for x in ss}
+        if len(distinct) > 1:
+            a, c = ss[0], next(x for x in ss if (x.args, x.env) != (ss[0].args, ss[0].env) or x.sid != ss[0].sid)
+            ctx.violation(f'dat-shared:{a.args!r}:{a.env!r}:{c.args!r}:{c.env!r}'.replace(' ', '␣'),
+                          f'different commands are given the same wrapper file {os.path.basename(path)}: '
+                          f'{a.position} {a.args!r} env {a.env!r} and {c.position} {c.args!r} env {c.env!r}',
+                          case_of(kind, a, {'other_args': c.args, 'other_env': c.env, 'dat': os.path.basename(path)}))
+
+
 def expect_compile(a: str, per_target: bool) -> str:
     """per-target -D//D arguments have their backslashes doubled; everything else is unchanged"""
     if per_target and a[:2] in ('-D', '/D'):
@@ -883,7 +1023,7 @@ def run_e2e(ctx: Ctx, scratch: str, extra_strings: T.Optional[T.List[str]] = Non
         sites, text = gen_project(rng, idx, 'rsp', extra, 4)
         plan.append(('rsp', sites, text))
         idx += 1
-    for kind in ('tests', 'optlike', 'nl-env', 'nl-compile'):
+    for kind in ('crosstalk', 'tests', 'optlike', 'nl-env', 'nl-compile'):
         sites, text = gen_project(rng, idx, kind, extra, 1)
         plan.append((kind, sites, text))
         idx += 1
@@ -930,8 +1070,9 @@ def single_site_project(s: Site, kind: str) -> T.Tuple[T.List[Site], str]:
     L = ["project('r', 'c')", "py = find_program(%s)" % msn(sys.executable), "dump = files('dump.py')"]
     if s.env:
         L.append('e = environment()')
-        for k, v in s.env:
-            L.append(f'e.set({msn(k)}, {msn(v)})')
+        for k, v, op, sep in env_ops(s.env):
+            sepkw = '' if sep == ':' else f', separator: {msn(sep)}'
+            L.append(f'e.{op}({msn(k)}, {msn(v)}{sepkw})')
     envkw = ', env: e' if s.env else ''
     a = ''.join(', ' + msn(x) for x in s.args)
     sid = s.sid
